@@ -317,7 +317,10 @@ def adc(img, gain, saturation_capacity=None, warn_saturate=False, dtype=None):
         raise ValueError
 
     # Prepare a cube of electron counts to apply the polynomial gain to
+    # (in floating point: the powers of an integer frame would wrap around in
+    # the frame's own type)
     img_cube = np.repeat(img[np.newaxis, :, :], model_order, axis=0)
+    img_cube = img_cube.astype(np.result_type(img_cube.dtype, np.float64))
     for order in np.arange(model_order, 1, -1):
         d = model_order - order
         img_cube[d] = img_cube[d]**order
